@@ -58,6 +58,35 @@ CLAIMED = {
               "usage rows, dates and resource list must be equal; the same Bool predicates the theorems conclude are evaluated on the "
               "implementation's observation, and ResourceUsageReport.reserved/rows are compared with the rows."),
         design='6 (C03)', technique='Lean 4 proof (ledger invariant over the fill-loop specification) + differential correspondence'),
+    'C04': dict(
+        text=("Theorems C04_forward (7 clauses) and C04_backward (5 clauses) for every input of the scheduler model: every leaf that is neither a "
+              "milestone nor completed gets exactly max(estimate - spent, 0) units (defaults filled in) reserved, at most once per day, all on days "
+              "from its start day up to strictly before its end and, forward, never before the current day; a scheduler-chosen forward start lies on "
+              "the first reserved day, the end within the 24 hours after the last reserved day's midnight, a backward start within the first "
+              "reserved day; milestones, completed and summary tasks reserve nothing; user-fixed dates of non-milestone leaves are returned "
+              "unchanged. Hypotheses: membership flags describe the WBS, every clock reading of one calc lies on one calendar day; backward: no "
+              "user-fixed dates. " + SCHED_TIE),
+        design='6 (C04)', technique='Lean 4 proof (fill-loop specification + per-task placement invariant) + differential correspondence'),
+    'C06': dict(
+        text=("PARTIAL / split. The Lean model is a function, so purity and determinism of the MODEL hold by construction; that the implementation "
+              "behaves as this function - input WBS and tasks untouched (snapshot through every public getter), result a separate WBS with the same "
+              "ids, hierarchy, sibling order, links and custom attributes, same result when calc is repeated on the same scheduler object and on a "
+              "fresh one - is what this check's correspondence stream tests on every case. Proved: C06_dates_present_* (every task of the result "
+              "has start and end) and C06_clock_partial (two clocks whose readings all lie on days before the project start day and before every "
+              "user-fixed start without fixed end give the identical result, errors included). The full clock clause is false on the code: "
+              "C06_clock_full_fails is a kernel-checked counterexample with both clocks not later than the project start (finding KF-S6-C06, "
+              "replayed on every run). " + SCHED_TIE),
+        design='6 (C06)', technique='Lean 4 proof (clock-independence by simulation) + kernel-checked counterexample + differential correspondence with repeated calls'),
+    'C14': dict(
+        text=("Theorems C14_forward / C14_backward: for every WBS satisfying the structural invariants (forest stored on both ends, symmetric links; "
+              "what C01 guarantees) and every resource set whose calendars do not raise, calc in the model ends in a schedule or RuntimeError - "
+              "never RecursionError (fuel exhaustion or a task met again while in progress: excluded by the proved soundness of the DFS pre-check "
+              "C14_loopsFrom_sound and a cycle-transfer argument from the pass's call graph to the leaf-level waits-for relation), KeyError, "
+              "TypeError, ZeroDivisionError or ValueError. C14_diagnoses_*: an outside predecessor lacking a date, a fixed end in the future "
+              "(forward) and a dependency cycle closing through the hierarchy yield RuntimeError; C14_dead_resource_*: a resource without "
+              "availability within the horizon yields RuntimeError. The implementation's real horizons (100000 days) are exercised by the stream "
+              "(dead calendars). " + SCHED_TIE),
+        design='6 (C14)', technique='Lean 4 proof (DFS soundness, call-graph acyclicity, fuel sufficiency by pigeonhole) + differential correspondence'),
     'C05': dict(
         text=("Theorems over the same model and invariant (Inv = well-formed + truthful owners + unique ids + bounded): C05_step/C05_run - no "
               "operation, accepted or rejected, along any history can make two different tasks of one WBS or one detached tree share an id; "
